@@ -124,3 +124,25 @@ Proof. exact star_simple. Qed.
 Theorem C07_rounded_rect_simple : forall (w h r : R) (segments : Z) (center : bool) pts, (0 < r)%R -> (2 * r < w)%R -> (2 * r < h)%R -> (1 <= segments)%Z ->
   rounded_rect w h r segments center = Some pts -> simple pts.
 Proof. exact rounded_rect_simple. Qed.
+(* "feeding any of them to linear_extrude yields an outward-facing solid": for every outline above the extrusion by a
+   positive height has vol6 < 0 (faces clockwise seen from outside, Geom/Volume_proofs.v) as soon as the top cap is
+   completely triangulated -- which is unconditional for circle, inscribed and circumscribed polygons (C04_every_cylinder,
+   C04_polygon_prisms) and is the open part of C03 for the non-convex ones *)
+From Coq Require Import Lra Psatz.
+From SCAD Require Import Geom.Tri Geom.Dim3 Geom.Mesh_proofs Geom.Volume_proofs.
+Theorem C07_extrusions_outward : forall (pts : list (pt2 R)) (h : R) ph,
+  ((exists w hh r s c, (0 < r)%R /\ (2 * r < w)%R /\ (2 * r < hh)%R /\ (1 <= s)%Z /\ rounded_rect w hh r s c = Some pts) \/
+   (exists n i o, (2 <= n)%Z /\ (0 < i)%R /\ (0 < o)%R /\ pts = star n i o) \/
+   (exists size oversize, (0 < size)%R /\ (0 <= oversize)%R /\ pts = chamfer size oversize) \/
+   (exists r n, (3 <= n)%Z /\ r <> 0%R /\ (circle r n = Some pts \/ inscribed_polygon n r = Some pts \/ circumscribed_polygon n r = Some pts))) ->
+  linear_extrude pts h = Some ph -> complete (enumerate pts) -> (0 < h)%R -> (vol6 (fst ph) (snd ph) < 0)%R.
+Proof.
+  intros pts h ph Hgen E Hc Hh. rewrite (linear_extrude_volume pts h ph E Hc).
+  assert (Ha : (area2 pts < 0)%R).
+  { destruct Hgen as [(w & hh & r & s & c & Hr & Hw & Hhh & Hs & Hp)|[(n & i & o & Hn & Hi & Ho & ->)|[(size & oversize & Hs & Ho & ->)|(r & n & Hn & Hr & Hp)]]].
+    - exact (rounded_rect_clockwise w hh r s c pts Hr Hw Hhh Hs Hp).
+    - apply star_clockwise; assumption.
+    - apply chamfer_clockwise; assumption.
+    - destruct Hp as [Hp|[Hp|Hp]]; [exact (circle_clockwise r n pts Hn Hr Hp)|exact (circle_clockwise r n pts Hn Hr Hp)|exact (circumscribed_clockwise n r pts Hn Hr Hp)]. }
+  nra.
+Qed.
